@@ -112,7 +112,7 @@ func runRetry(c retryCase) retryResult {
 
 func c20(x *mon.Ctx) {
 	x.Level = "fault_enumeration"
-	x.Rule = "a scripted wrapped getter records the monotonic time of every attempt: 'k failures then success' for every k the timeout allows (and a few beyond) and 'fail forever', over timeout {0, 50 ms, 300 ms, 1 s} x maximum retry delay {0, 1 ms, 20 ms, 100 ms, 5 s}. Oracle: on success the returned header map and body equal the first successful response and the wrapped getter's values are untouched, no attempt follows the success; every gap between failed attempts is <= cap + slack (asserted only when the timer-lateness calibration running alongside stayed below slack/4, else inconclusive); not a busy loop: attempts <= 10 x timeout / max(cap, 1 ms) + 10; give-up: an error is returned within timeout + cap + slack. The thorough tier also runs the default schedule (2 min timeout, 30 s cap). distinct = distinct (timeout, cap, k)."
+	x.Rule = "a scripted wrapped getter records the monotonic time of every attempt: 'k failures then success' for every k the timeout allows (and a few beyond) and 'fail forever', over timeout {0, 50 ms, 300 ms, 1 s} x maximum retry delay {0, 1 ms, 20 ms, 100 ms, 5 s}, plus delays off the doubling ladder (2.2 s, 2.5 s, 3 s; thorough: 4.1 s, 5 s, 9 s) under timeouts of 6..40 s. Oracle: on success the returned header map and body equal the first successful response and the wrapped getter's values are untouched, no attempt follows the success; every gap between failed attempts is <= cap + slack (asserted only when the timer-lateness calibration running alongside stayed below slack/4, else inconclusive); not a busy loop: attempts <= 10 x timeout / max(cap, 1 ms) + 10; give-up: an error is returned within timeout + cap + slack. The thorough tier also runs the default schedule (2 min timeout, 30 s cap). distinct = distinct (timeout, cap, k)."
 	x.Assume = []string{"upper bounds are wall-clock and guarded by a lateness calibration; attempt counts are load-proof"}
 	const slack = 60 * time.Millisecond
 	var cases []retryCase
@@ -143,7 +143,13 @@ func c20(x *mon.Ctx) {
 		retryCase{300 * time.Millisecond, 20 * time.Millisecond, -1, 0, 100 * time.Millisecond},
 		retryCase{300 * time.Millisecond, 1 * time.Millisecond, -1, 0, 50 * time.Millisecond},
 		retryCase{time.Second, 100 * time.Millisecond, 40, 0, 150 * time.Millisecond})
+	// maximum retry delays that are not on the doubling ladder 4 s, 8 s, 16 s ... (a few seconds of wall clock, run in parallel)
+	cases = append(cases,
+		retryCase{6 * time.Second, 2200 * time.Millisecond, 1, 0, 0},
+		retryCase{6 * time.Second, 3 * time.Second, 1, 0, 0},
+		retryCase{6 * time.Second, 2500 * time.Millisecond, -1, 0, 0})
 	if !x.Quick() {
+		cases = append(cases, retryCase{12 * time.Second, 5 * time.Second, 2, 0, 0}, retryCase{40 * time.Second, 9 * time.Second, 3, 0, 0}, retryCase{30 * time.Second, 4100 * time.Millisecond, -1, 0, 0})
 		cases = append(cases, retryCase{2 * time.Minute, 30 * time.Second, -1, 0, 0}, retryCase{2 * time.Minute, 30 * time.Second, 3, 0, 0})
 	}
 	var mu sync.Mutex
